@@ -52,12 +52,15 @@ def text_for(rng, hostile, allow_empty=False):
 
 def gen_graph(rng, n_ns=None, n_nodes=None, hostile=True, closed=True, values_ok=True, features=None, layered=None):
     """features: dict of switches that keep the graph inside / outside recorded-defect classes"""
-    f = {"browse_colon": False, "attr_overflow": False, "empty_ns": False, "no_ua_use": False, "hostile_uri": False}
+    f = {"browse_colon": False, "attr_overflow": False, "empty_ns": False, "no_ua_use": False, "hostile_uri": False,
+         "repeat_nodes": False, "many_ns": False}
     f.update(features or {})
     # layered: 3-5 namespaces of which only some pairs are linked, so that a namespace uses a later one but not an earlier one
     if layered is None:
         layered = n_ns is None and rng.random() < 0.35
     k = n_ns or (rng.randint(3, 5) if layered else rng.randint(1, 3))
+    if f["many_ns"] and n_ns is None:
+        k = rng.randint(10, 13)          # local indices with two digits
     uris = ["http://%s.example/%s" % (rng.choice("abcdefg"), gen.plain_text(rng, 1).lower()) + str(i) for i in range(k)]
     if (hostile and rng.random() < 0.3) or f.get("hostile_uri"):
         uris[rng.randrange(k)] += "?a=1&b=<2>"
@@ -68,13 +71,22 @@ def gen_graph(rng, n_ns=None, n_nodes=None, hostile=True, closed=True, values_ok
 
     def vis(u, pool):
         return [x for x in pool if linked(x[0], u)]
+    # namespaces that are reached through an attribute (DataType, ParentNodeId, MethodDeclarationId) only, never through a reference
+    attr_link = {frozenset((a, b)) for a in uris for b in uris if a < b and layered and frozenset((a, b)) not in link and rng.random() < 0.3}
+
+    def vis_attr(u, pool):
+        return [x for x in pool if linked(x[0], u) or frozenset((x[0], u)) in attr_link]
     nodes = {}
     order = []
     for u in uris:
         cnt = (n_nodes or rng.randint(1, 10))
-        for _ in range(cnt):
+        for j_ in range(cnt):
             t, ident = rand_ident(rng, hostile)
             key = (u, t, ident)
+            if j_ > 0 and rng.random() < 0.12:
+                # a twin: the identifier text of an existing node under another identifier type is a different NodeId
+                ku, kt, kid = rng.choice([x for x in order if x[0] == u] or [key])
+                key = (u, "s" if kt != "s" else "b", kid)
             if key in nodes:
                 continue
             cls = rng.choice(CLASSES) if rng.random() < 0.7 else rng.choice(["UAObject", "UAVariable"])
@@ -98,7 +110,7 @@ def gen_graph(rng, n_ns=None, n_nodes=None, hostile=True, closed=True, values_ok
                 if a == "DataType":
                     continue
                 if a in ("ParentNodeId", "MethodDeclarationId"):
-                    n["attrs"][a] = rng.choice(vis(key[0], keys) + base_targets) if closed else rng.choice(keys + base_targets + [(n["id"][0], "i", "999999")])
+                    n["attrs"][a] = rng.choice(vis_attr(key[0], keys) + base_targets) if closed else rng.choice(keys + base_targets + [(n["id"][0], "i", "999999")])
                 elif a in ("IsAbstract", "Symmetric", "Historizing"):
                     n["attrs"][a] = rng.choice(["true", "false"])
                 elif a == "ValueRank":
@@ -118,13 +130,15 @@ def gen_graph(rng, n_ns=None, n_nodes=None, hostile=True, closed=True, values_ok
         if n["cls"] in ("UAVariable", "UAVariableType"):
             if n["cls"] == "UAVariable" and values_ok and rng.random() < 0.7:
                 v = values.rand_value(rng)
+                if rng.random() < 0.07:      # markup-like text without '&' or '<' (']]>' must still be escaped in element content)
+                    v = {"t": "String", "v": rng.choice(["a]]>b", "]]>", "limit[idx[0]]>5", "x]>y ]] >", "-->"])}
                 n["value"] = v
                 vt = v["t"] if v["t"] != "ListOf" else v["typename"]
                 n["attrs"]["DataType"] = BASE(VALUE_DT.get(vt, 24))
                 if v["t"] == "ListOf":
                     n["attrs"]["ValueRank"] = "1"
             elif rng.random() < 0.6:
-                n["attrs"]["DataType"] = rng.choice(vis(key[0], dtypes) + [BASE(6), BASE(12), BASE(11)])
+                n["attrs"]["DataType"] = rng.choice(vis_attr(key[0], dtypes) + [BASE(6), BASE(12), BASE(11)])
     # references
     refs = []
     custom_types = [k_ for k_ in keys if nodes[k_]["cls"] == "UAReferenceType"]
@@ -156,11 +170,17 @@ def gen_graph(rng, n_ns=None, n_nodes=None, hostile=True, closed=True, values_ok
         pass
     models = {}
     for u in uris:
-        deps = [UA] + [x for x in uris if x != u and any((r[0][0] == u and r[1][0] == x) or (r[1][0] == u and r[0][0] == x) or
-                                                          (r[0][0] == u or r[1][0] == u) and r[2][0] == x for r in refs)]
+        deps = [UA] + [x for x in uris if x != u and (any((r[0][0] == u and r[1][0] == x) or (r[1][0] == u and r[0][0] == x) or
+                                                           (r[0][0] == u or r[1][0] == u) and r[2][0] == x for r in refs)
+                                                       or any(n_["id"][0] == u and (n_["browse_ns"] == x or any(isinstance(v_, tuple) and v_[0] == x for v_ in n_["attrs"].values()))
+                                                              for n_ in nodes.values()))]
         models[u] = {"uri": u, "version": rng.choice(["1.0.0", "2.1", None]), "publication_date": rng.choice(["2020-01-01T00:00:00Z", None]),
                      "required": [{"uri": d, "version": rng.choice(["1.04", "1.0.0", None]), "publication_date": rng.choice(["2019-05-01T00:00:00Z", None])} for d in deps]}
-    return {"uris": uris, "nodes": nodes, "order": order, "refs": refs, "models": models}
+    repeat = {}
+    if f["repeat_nodes"] and order:
+        for k_ in rng.sample(order, min(len(order), rng.randint(1, 2))):
+            repeat[k_] = 1               # the node element is written twice (overlapping exports)
+    return {"uris": uris, "nodes": nodes, "order": order, "refs": refs, "models": models, "repeat": repeat}
 
 
 # ------------------------------------------------------------------------------------------------
@@ -331,7 +351,7 @@ def serialise(rng, g, one_file=False, base_name=True, uri_rng=None, extras=True)
             if allow_alias and key in alias and rng.random() < 0.7:
                 return alias[key]
             return nid_text(key, local)
-        for k in own:
+        for k in own + [k_ for k_ in own for _ in range(g.get("repeat", {}).get(k_, 0))]:
             n = g["nodes"][k]
             attrs = [("NodeId", nid_text(k, local))]
             bk = local[n["browse_ns"]]
